@@ -140,6 +140,7 @@ class _ParseTreeProcessor(parsimonious.NodeVisitor):
         assert isinstance(statement_stream_processor, StatementStreamProcessor)
         self._statement_stream_processor = statement_stream_processor  # type: StatementStreamProcessor
         self._current_line_number = 1  # Lines are numbered from one
+        self._line_break_search_position = 0  # Line breaks before this offset of the text are already counted
         self._comment = ""
         self._comment_is_header = True
         self._pending_attribute_line_number: typing.Optional[int] = None  # Attribute awaiting its doc comment
@@ -177,8 +178,11 @@ class _ParseTreeProcessor(parsimonious.NodeVisitor):
             # Line is empty, flush comment
             self._flush_comment()
 
-    def visit_end_of_line(self, _n: _Node, _c: _Children) -> None:
-        self._current_line_number += 1
+    def visit_end_of_line(self, node: _Node, _c: _Children) -> None:
+        # A statement may span several lines (a string literal may contain raw line breaks),
+        # so count every line break up to the end of this one rather than the end-of-line nodes.
+        self._current_line_number += node.full_text.count("\n", self._line_break_search_position, node.end)
+        self._line_break_search_position = node.end
 
     def visit_definition(self, _n: _Node, _c: _Children) -> None:
         # The trailing end-of-line is optional, so the last statement may still be waiting for its comment here.
